@@ -229,8 +229,10 @@ pub fn run(tier: &str) -> i32 {
     let spec = C10Spec { alphabet: alphabet(thorough) };
     let (d_state, d_tree) = if thorough { (6, 3) } else { (4, 2) };
     let caps = Caps { max_states: if thorough { 1_500_000 } else { 200_000 }, max_secs: if thorough { 900.0 } else { 40.0 } };
-    let st = histmc::bfs(&spec, d_state, true, &rep, &caps);
+    // the stateless guard runs first: the stateful search may stop on its memory guard, and RSS
+    // is not returned to the OS afterwards
     let st2 = histmc::bfs(&spec, d_tree, false, &rep, &Caps { max_states: 5_000_000, max_secs: 300.0 });
+    let st = histmc::bfs(&spec, d_state, true, &rep, &caps);
     histmc::stats_into(&mut rep, "", &st);
     histmc::stats_into(&mut rep, "stateless_guard_", &st2);
     rep.set("alphabet_size", json!(spec.alphabet.len()));
